@@ -67,6 +67,9 @@ func c06(c *ev.Ctx) {
 	c06Names(c)
 	c06Fixed(c)
 	c06PartialReturn(c)
+	// recursion keeps working after calls that failed deep inside other calls (the stream
+	// is shared with C07)
+	c07Limits(c)
 	// the function table belongs to the script in force: after preparing another
 	// script on the same evaluator a function only the old script defined is unknown
 	c20RePrepare(c)
